@@ -10,6 +10,7 @@
 (* every controllable leaf.  Statements [k, a, b]:                          *)
 (*   L a    declare tracked local a                                        *)
 (*   X a    co_await at_coroutine_exit(action a)   (registers a cleanup)   *)
+(*   Y a l  ... whose action itself co_awaits leaf sender l (suspends)     *)
 (*   A l b  co_await leaf sender l   (b = 1: catch its exception, go on)   *)
 (*   N l b  co_await as_sender(awaitable leaf l)                            *)
 (*   M l b  co_await awaitable leaf l                                       *)
@@ -49,12 +50,15 @@ Frames == 0..(K - 1)
 Body(k) == Script.body[k + 1]
 LeafKinds == {"A", "N", "M"}
 StmtsOf(sc) == UNION {{sc.body[j][i] : i \in 1..Len(sc.body[j])} : j \in 1..Len(sc.body)}
-LeavesOf(sc) == {s.a : s \in {x \in StmtsOf(sc) : x.k \in LeafKinds}}
+CleanLeavesOf(sc) == {s.b : s \in {x \in StmtsOf(sc) : x.k = "Y"}}      \* leaves awaited inside cleanup actions
+LeavesOf(sc) == {s.a : s \in {x \in StmtsOf(sc) : x.k \in LeafKinds}} \cup CleanLeavesOf(sc)
 CbLeavesOf(sc) == {s.a : s \in {x \in StmtsOf(sc) : x.k = "A"}}
 Leaves == LeavesOf(Script)
+CleanLeaves == CleanLeavesOf(Script)
 CbLeaves == CbLeavesOf(Script)          \* leaf senders (they register a stop callback); N/M leaves are awaitables
 Ctxs == {0} \cup {s.a : s \in {x \in StmtsOf(Script) : x.k = "S"}}
-Owner(l) == CHOOSE k \in Frames : \E i \in 1..Len(Body(k)) : Body(k)[i].k \in LeafKinds /\ Body(k)[i].a = l
+Owner(l) == CHOOSE k \in Frames : \E i \in 1..Len(Body(k)) : \/ Body(k)[i].k \in LeafKinds /\ Body(k)[i].a = l
+                                                               \/ Body(k)[i].k = "Y" /\ Body(k)[i].b = l
 Sources == 0..K
 Src(k) == k + 1
 Mode(l) == cfg.mode[l]
@@ -106,6 +110,7 @@ InitS ==
    cur |-> <<"-", 0>>, ext |-> <<"-", 0>>, lastCh |-> "", started |-> FALSE,
    \* histories
    log |-> <<>>, rootDone |-> <<>>,
+   cpend |-> [k \in Frames |-> [a |-> 0, sc |-> 0, r |-> NONE]],          \* suspended cleanup action of the frame
    regd |-> [k \in Frames |-> <<>>], ran |-> [k \in Frames |-> <<>>],     \* ghosts: cleanup actions registered / run
    affBad |-> FALSE]
 
@@ -114,6 +119,8 @@ Init ==
        \E m \in [LeavesOf(sc) -> LeafModes] :
           \* awaitable leaves have no stop callback and cannot signal done
           /\ \A l \in LeavesOf(sc) \ CbLeavesOf(sc) : m[l].onStop = "ignore" /\ m[l].ch # "d"
+          \* a cleanup action may neither fail nor cancel (it would terminate the process)
+          /\ \A l \in CleanLeavesOf(sc) : m[l].ch = "v"
           /\ cfg = [script |-> sc, mode |-> m]
   /\ S = InitS
 
@@ -143,7 +150,9 @@ DoExec(T, k) ==
       Next1(T1) == Repl([T1 EXCEPT !.pc[k] = i + 1], <<Sig("exec", k, NONE)>>)
       tok == Tok(T, k) IN
   CASE s.k = "L" -> Next1(Log([T EXCEPT !.locals[k] = Append(@, s.a)], "LocalCtor", k, s.a, <<>>))
-    [] s.k = "X" -> Next1(BLog([T EXCEPT !.clean[k] = <<[t |-> "act", a |-> s.a]>> \o @, !.regd[k] = Append(@, s.a)], "Reg", k, s.a, <<>>))
+    [] s.k = "X" -> Next1(BLog([T EXCEPT !.clean[k] = <<[t |-> "act", a |-> s.a, l |-> 0, sc |-> 0]>> \o @, !.regd[k] = Append(@, s.a)], "Reg", k, s.a, <<>>))
+    [] s.k = "Y" -> Next1(BLog([T EXCEPT !.clean[k] = <<[t |-> "actw", a |-> s.a, l |-> s.b, sc |-> T.sched[k]]>> \o @,
+                                          !.regd[k] = Append(@, s.a)], "Reg", k, s.a, <<>>))
     [] s.k \in LeafKinds ->
          LET l == s.a
              stopped == T.req[tok]
@@ -159,7 +168,7 @@ DoExec(T, k) ==
     [] s.k = "O" -> Spawn(T, k, s.a, "O")
     [] s.k = "S" ->
          LET T1 == IF T.resch[k] THEN T
-                   ELSE [T EXCEPT !.resch[k] = TRUE, !.clean[k] = <<[t |-> "resched", a |-> T.sched[k]]>> \o @] IN
+                   ELSE [T EXCEPT !.resch[k] = TRUE, !.clean[k] = <<[t |-> "resched", a |-> T.sched[k], l |-> 0, sc |-> 0]>> \o @] IN
          Repl(Enq([T1 EXCEPT !.sched[k] = s.a], s.a, Item("sched", k, 0, NONE)), <<>>)
     [] s.k = "Q" -> IF T.req[tok] THEN Unwind(T, k) ELSE Next1(BLog(T, "NotStopped", k, 0, <<>>))
     [] s.k = "W" -> Repl(T, <<Sig("exit", k, Err(<<s.a>>))>>)
@@ -171,7 +180,8 @@ DoLeafDone(T, l, r) ==
   LET k == Owner(l)
       tok == Tok(T, k)
       T1 == [T EXCEPT !.leaf[l] = "completed", !.cb[tok] = IF @ = [t |-> "leaf", n |-> l] THEN NoCb ELSE @] IN
-  Repl(Enq(T1, T.sched[k], Item("leafres", k, l, r)), <<>>)
+  IF l \in CleanLeaves THEN Repl(Enq(T1, T.cpend[k].sc, Item("cleanres", k, l, r)), <<>>)   \* the action's own affinity hop
+  ELSE Repl(Enq(T1, T.sched[k], Item("leafres", k, l, r)), <<>>)
 
 \* the co_await of frame k produces r: await_resume() returns / rethrows, or (done) the frame is unwound
 DoResume(T, k, r) ==
@@ -198,6 +208,10 @@ DoChain(T, k, r) ==
   ELSE LET h == Head(T.clean[k])
            T1 == [T EXCEPT !.clean[k] = Tail(@)] IN
        IF h.t = "act" THEN Repl(Log([T1 EXCEPT !.ran[k] = Append(@, h.a)], "Cleanup", k, h.a, <<>>), <<Sig("chain", k, r)>>)
+       ELSE IF h.t = "actw" THEN       \* the action (a task with an unstoppable token) awaits leaf h.l
+         LET T2 == Log(Log([T1 EXCEPT !.cpend[k] = [a |-> h.a, sc |-> h.sc, r |-> r], !.leaf[h.l] = "started"],
+                           "CleanupBegin", k, h.a, <<>>), "LeafStart", h.l, 0, <<>>) IN
+         IF Mode(h.l).inl THEN Repl(T2, <<Sig("leafdone", h.l, Val(<<h.l>>))>>) ELSE Repl(T2, <<>>)
        ELSE Repl(Enq(T1, h.a, Item("resched", k, 0, r)), <<>>)      \* at_coroutine_exit(schedule, original scheduler)
 
 \* frame k has completed (cleanup chain included) with r: the parent / the thunk takes over
@@ -256,6 +270,8 @@ StepOf(T) ==
     [] top.k = "thunkgo" -> DoThunkGo(T, top.n)
     [] top.k = "reqstop" -> DoReqStop(T, top.n)
     [] top.k = "stopopfin" -> DoStopOpFin(T, top.n)
+    [] top.k = "cleandone" -> Repl(Log([T EXCEPT !.ran[top.n] = Append(@, T.cpend[top.n].a)], "Cleanup", top.n, T.cpend[top.n].a, <<>>),
+                                   <<Sig("chain", top.n, T.cpend[top.n].r)>>)
 
 Internal == /\ S.stack # <<>> /\ S' = StepOf(S) /\ UNCHANGED cfg
 
@@ -279,14 +295,16 @@ ApplyRunCtx(T, c) ==
      CASE it.t = "leafres" -> <<Sig("resume", it.k, it.r)>>
        [] it.t = "sched" -> <<Sig("resume", it.k, IF T.req[Tok(T, it.k)] THEN Done ELSE Val(<<>>))>>
        [] it.t = "resched" -> <<Sig("chain", it.k, it.r)>>
+       [] it.t = "cleanres" -> <<Sig("cleandone", it.k, NONE)>>
        [] it.t = "stopop" -> <<Sig("reqstop", Src(it.k), NONE), Sig("stopopfin", it.k, NONE)>>]
 
+LeafChOk(l, ch) == (ch = "d" => l \in CbLeaves) /\ (l \in CleanLeaves => ch = "v")
 ExtStart == Quiescent /\ EnStart(S) /\ S' = ApplyStart(S) /\ UNCHANGED cfg
 ExtCompleteLeaf(l, ch) == Quiescent /\ EnCompleteLeaf(S, l) /\ S' = ApplyCompleteLeaf(S, l, ch) /\ UNCHANGED cfg
 ExtStop == Quiescent /\ EnStop(S) /\ S' = ApplyStop(S) /\ UNCHANGED cfg
 ExtRunCtx(c) == Quiescent /\ EnRunCtx(S, c) /\ S' = ApplyRunCtx(S, c) /\ UNCHANGED cfg
 External == \/ ExtStart \/ ExtStop
-            \/ \E l \in Leaves, ch \in {"v", "e", "d"} : (ch = "d" => l \in CbLeaves) /\ ExtCompleteLeaf(l, ch)
+            \/ \E l \in Leaves, ch \in {"v", "e", "d"} : LeafChOk(l, ch) /\ ExtCompleteLeaf(l, ch)
             \/ \E c \in Ctxs : ExtRunCtx(c)
 Next == Internal \/ External
 Spec == Init /\ [][Next]_vars
